@@ -386,7 +386,7 @@ func runRetryOne(o retryOp) (ans, oracle string, witness bool, hits []string) {
 		opt.Sentinel.MasterSet = "mymaster"
 		client, err = rueidis.VerifRoutingNewSentinel(opt, w.nodeFn())
 	case "cl", "nd":
-		opt.InitAddress = []string{nodeA}
+		opt.InitAddress = []string{nodeB} // not A: _refresh keeps every InitAddress in c.conns, A must be removable
 		if o.mode == "nd" {
 			opt.DisableCache = o.dc
 		}
